@@ -24,6 +24,11 @@ iterates a Python `set`, reuses a module-level cache, or mutates an object durin
                  an external_choices sheet headed `list name`: what xls2json edits in place must be a copy
   nested_cells   dict input whose cells are already grouped (`control: {jr:count: …}`, `bind: {…}`): nested values
                  are shared with the caller unless copied
+  settings_sweep every settings column the source knows (Survey slots, aliases, every `settings[...]`/`in settings`
+                 key of xls2json, read from the repo under test), rare ones included (instance_id, instance_name,
+                 public_key, omit_instanceID ...): whatever a setting writes must not outlive the conversion
+  lists_langs    several choice lists translated into different language sets, or_other on the one with the
+                 fewest languages, later lists introducing further languages: every set built over choices/languages
   type_sweep     one question of every type of the type table (all spellings), selects included
   param_sweep    every parameter family (range, text rows, image, audio/background-audio quality, geo accuracy,
                  select randomize/seed, select-from-file value/label, audit) with every subset of its parameters
@@ -47,7 +52,7 @@ FEATURES = [
     "sparse_itext", "pulldata", "or_other", "instance_label", "external", "external_nohdr", "search",
     "search_mixed", "dup_id", "entities", "missing_header", "dyn_default", "namespaces",
     "dup_names", "type_sweep", "param_sweep", "last_saved", "lang_codes",
-    "plain_rows", "nested_cells", "plain",
+    "plain_rows", "nested_cells", "settings_sweep", "lists_langs", "plain",
 ]
 
 
@@ -437,6 +442,89 @@ def add_nested_cells(rng, form):
     form.pop("_nested_count", None)
 
 
+_SETTINGS_COLS = []
+_STRUCTURAL = {"children", "type", "choices", "bind", "control", "parent", "extra_data", "media", "label", "hint", "instance", "flat",
+               "entity_features", "setgeopoint_by_triggering_ref", "setvalues_by_triggering_ref", "file_name", "sms_field", "attribute",
+               "delimiter"}
+_SETTINGS_VALUES = {
+    "title": "Sweep title", "form_title": "Sweep title", "set_form_title": "Sweep title", "id_string": "sweep_id", "form_id": "sweep_id",
+    "set_form_id": "sweep_id", "version": "2024010101", "instance_id": "deviceid", "instance_name": "concat('i', 'n')",
+    "public_key": "MIIBIjANBgkqhkiG9w0BAQEFAAOCAQ8AMIIBCgKCAQEA", "submission_url": "https://example.org/submission",
+    "auto_send": "true", "auto_delete": "false", "style": "pages", "instance_xmlns": "http://example.org/xforms/sweep",
+    "namespaces": 'esri="http://esri.com/xforms"', "name": "sweeproot", "prefix": "J1!sweep!", "allow_choice_duplicates": "yes",
+    "clean_text_values": "yes", "add_none_option": "no", "omit_instanceID": "yes", "sms_keyword": "kw", "sms_separator": "+",
+    "sms_allow_media": "no", "sms_date_format": "%Y-%m-%d", "sms_datetime_format": "%Y-%m-%d-%H:%M", "sms_response": "thanks",
+}
+
+
+def settings_columns():
+    """every settings key the code under test reads: Survey slots, header aliases, and the literal keys used
+    with `settings[...]`, `settings.get(...)`, `... in settings` in xls2json"""
+    if not _SETTINGS_COLS:
+        import inspect
+        import re
+
+        import impl  # noqa: F401
+        from pyxform import aliases, xls2json
+        from pyxform.survey import Survey
+
+        src = inspect.getsource(xls2json)
+        cols = set(re.findall(r'settings(?:\.get\(|\[)\s*["\']([\w:]+)["\']', src))
+        cols |= set(re.findall(r'["\']([\w:]+)["\']\s+in\s+settings\b', src))
+        cols |= set(aliases.settings_header) | {c for c in Survey.get_slot_names() if not c.startswith("_")}
+        _SETTINGS_COLS.extend(sorted(cols - _STRUCTURAL))
+    return _SETTINGS_COLS
+
+
+def add_settings_sweep(rng, form, langs, omit=False):
+    cols = list(settings_columns())
+    st = {}
+    seen_targets = set()
+    for c in cols:
+        if c == "omit_instanceID" and not omit:
+            continue
+        if omit and c in ("public_key", "instance_id"):
+            continue
+        # aliases of one target: only one spelling per form
+        tgt = {"form_title": "title", "set_form_title": "title", "form_id": "id_string", "set_form_id": "id_string"}.get(c, c)
+        if tgt in seen_targets:
+            continue
+        seen_targets.add(tgt)
+        st[c] = _SETTINGS_VALUES.get(c, "v1")
+    if langs:
+        st["default_language"] = langs[0]
+    else:
+        st.pop("default_language", None)
+    keys = list(st)
+    rng.shuffle(keys)
+    form["settings"] = [{k: st[k] for k in keys}]
+
+
+def make_lists_langs(rng, form):
+    """Lists with different language sets; or_other where the list has fewer languages than the sheet."""
+    pool = rng.sample(LANG_POOL, k=rng.randint(4, 6))
+    n_lists = rng.randint(2, 4)
+    sizes = sorted(rng.randint(1, len(pool) - 2) for _ in range(n_lists))
+    form.clear()
+    survey, choices = [], []
+    for li in range(n_lists):
+        k = sizes[li] if li else 1                      # the first list: one language only
+        langs = pool[:1] if li == 0 else rng.sample(pool, k=max(2, k))
+        if li == n_lists - 1:
+            langs = pool[-3:]                           # the last list introduces >= 2 languages nobody used before
+        for ci in range(rng.randint(1, 3)):
+            row = {"list_name": f"ll{li}", "name": f"c{ci}"}
+            for lg in langs:
+                if rng.random() < 0.85 or ci == 0:
+                    row[f"label::{lg}"] = f"L{li}C{ci} {lg}"
+            choices.append(row)
+        typ = rng.choice(["select_one", "select_multiple"])
+        other = " or_other" if li == 0 or rng.random() < 0.5 else ""
+        survey.append({"type": f"{typ} ll{li}{other}", "name": f"llq{li}", f"label::{pool[0]}": f"Q{li}"})
+    form["survey"] = survey
+    form["choices"] = choices
+
+
 def add_dup_id(rng, form):
     st = (form.get("settings") or [{}])[0]
     st["id_string"] = rng.choice(["one", "my_form"])
@@ -482,14 +570,16 @@ def twin(form: dict) -> dict:
 
 def gen_c14_form(rng: random.Random, feature: str | None = None, big=False, nl: int | None = None) -> tuple[dict, list[str]]:
     feats = [feature] if feature else rng.sample(FEATURES, k=rng.choice([1, 1, 2, 3]))
+    nl_arg = nl
     if nl is None or (nl == 0 and "sparse_itext" in feats):
         nl = rng.choice([0, 2, 2, 3]) if not ({"sparse_itext"} & set(feats)) else rng.choice([2, 3, 4])
     langs = rng.sample(LANG_POOL, k=nl)
     form = base_form(rng, langs, big=big)
     # families that replace the form come first, the one that removes columns last
-    feats = sorted(feats, key=lambda f: (f not in ("lang_codes", "plain_rows"), f == "missing_header"))
-    if "lang_codes" in feats and "plain_rows" in feats:
-        feats.remove("plain_rows")
+    replacing = ("lang_codes", "plain_rows", "lists_langs")
+    feats = sorted(feats, key=lambda f: (f not in replacing, f == "missing_header"))
+    for extra in [f for f in feats if f in replacing][1:]:
+        feats.remove(extra)
     for f in feats:
         if f == "sparse_itext":
             add_sparse_itext(rng, form, langs)
@@ -513,6 +603,10 @@ def gen_c14_form(rng: random.Random, feature: str | None = None, big=False, nl: 
             add_dyn_default(rng, form, langs)
         elif f == "namespaces":
             add_namespaces(rng, form)
+        elif f == "settings_sweep":
+            add_settings_sweep(rng, form, langs, omit=(nl_arg == 0) if nl_arg is not None else rng.random() < 0.3)
+        elif f == "lists_langs":
+            make_lists_langs(rng, form)
         elif f == "lang_codes":
             make_lang_codes(rng, form)
         elif f == "plain_rows":
